@@ -675,9 +675,14 @@ func generateTopology(r *rand.Rand) *Scenario {
 			job.Topo = "missing-topology"
 			job.TopoReq = 1
 		}
+		if job.Topo == "topo1" && chance(0.35) {
+			job.TopoPref = 1 + r.Intn(nl) // a soft level: finer than, equal to or COARSER than the required one
+		}
 		if chance(0.3) {
 			job.Min = 1 + r.Intn(size) // elastic
 		}
+		// replicas that must not share a host (required pod anti-affinity among the gang's own pods)
+		spread := job.Topo == "topo1" && chance(0.3)
 		// sub-group level constraints: two pod sets (optionally under a common parent sub-group), each
 		// with its own required level - usually finer than the job's own level, or the job itself has none
 		subOf := func(k int) int { return 0 }
@@ -720,6 +725,11 @@ func generateTopology(r *rand.Rand) *Scenario {
 		// with ONE pod running (pinning the domain) when elastic with min 1
 		for k := 0; k < size; k++ {
 			p := Pod{Name: fmt.Sprintf("j%d-p%d", j+1, k+1), Job: j + 1, Cpu: 500, Mem: 500, Gpu: 1, Phase: "P", Sub: subOf(k)}
+			if spread {
+				app := fmt.Sprintf("j%d", j+1)
+				p.Labels = map[string]string{"app": app}
+				p.PodAnt = []PodTerm{{Key: "app", Val: app, Topo: "host"}}
+			}
 			runIt := (job.Topo == "" && len(job.Subs) == 0 && chance(0.6)) || (job.Topo == "topo1" && job.Min == 1 && k == 0 && chance(0.5))
 			if runIt {
 				for _, ni := range r.Perm(nn) {
